@@ -57,8 +57,8 @@ def p2p_process(chk: Check, repo: Repo) -> None:
     p0 = fi.node.args.args[1].arg
     fm = _future_model({"self._ack_waiter": "ack", "self._response_waiter": "response"})
     n_cells = 0
-    for tp, d, ackw, respw in product(("TDisconnect", "TAck", "TNak", "TDataConnected", "TDataIndividual"), (0, 1, 15), ("none", "pending", "done"), ("pending", "done")):
-        if tp in ("TDisconnect", "TAck", "TNak", "TDataIndividual") and d != 0:
+    for tp, d, ackw, respw in product(("TDisconnect", "TAck", "TNak", "TDataConnected", "TDataIndividual", "TConnect"), (0, 1, 15), ("none", "pending", "done"), ("pending", "done")):
+        if tp in ("TDisconnect", "TAck", "TNak", "TDataIndividual", "TConnect") and d != 0:
             continue
         n_cells += 1
         def cm(c, env):
@@ -82,8 +82,9 @@ def p2p_process(chk: Check, repo: Repo) -> None:
             want = {(((("SET_RESULT(ack)",) if ackw == "pending" else ())), E0, True, "exit")}
         else:
             if respw == "done" or d != 0 or tp != "TDataConnected":
-                # data telegram that is unexpected (waiter already served / wrong number / not numbered): discarded
-                want = {((), E0, True, "exit")} if (respw == "done" or tp == "TDataConnected") else None
+                # unexpected (waiter already served / wrong number) or not a numbered data telegram at all (its
+                # `sequence_number` is the class default 0, which must not match an expected 0): discarded
+                want = {((), E0, True, "exit")}
             else:
                 want = {(("SET_RESULT(response)",), E1, True, "exit")}
         if want is None:
